@@ -1,3 +1,5 @@
 import CEModel.Num
 import CEModel.JsonIO
 import CEModel.Stats
+import CEModel.Discovery
+import CEModel.DiscoveryIO
